@@ -41,11 +41,13 @@ func updateVeto(ctx sdk.Context, k keeper.Keeper, proposal types.Proposal) {
 func updateAbstain(ctx sdk.Context, k keeper.Keeper, proposal types.Proposal) {
 	if proposal.ProposalType() == shieldtypes.ProposalTypeShieldClaim {
 		c := proposal.GetContent().(*shieldtypes.ShieldClaimProposal)
-		proposer, err := sdk.AccAddressFromBech32(proposal.ProposerAddress)
+		// the shield was taken from the purchase of the claim's proposer (see updateAfterSubmitProposal),
+		// who need not be the account that submitted the proposal
+		purchaser, err := sdk.AccAddressFromBech32(c.Proposer)
 		if err != nil {
 			panic(err)
 		}
-		k.ShieldKeeper.RestoreShield(ctx, c.PoolId, proposer, c.PurchaseId, c.Loss)
+		k.ShieldKeeper.RestoreShield(ctx, c.PoolId, purchaser, c.PurchaseId, c.Loss)
 		k.ShieldKeeper.ClaimEnd(ctx, c.ProposalId, c.PoolId, c.Loss)
 	}
 }
